@@ -236,6 +236,13 @@ def run(ctx):
                 world.faults = {0: (ctx.rng.choice(["write", "read"]),)}
                 mgr.handle_line(proto, json.dumps(reqs.make("getPubKey", ctx.rng)[0]).encode())
                 world.reset_counters()
+                if ctx.rng.random() < 0.5:
+                    # ... and a second failure while the first is being repaired: the repair cut short by a time-out at
+                    # its mode / version / parameters exchange (the queries that follow must be served after a full repair)
+                    world.faults = {ctx.rng.choice([1, 2, 3]): ("timeout",)}
+                    mgr.handle_line(proto, json.dumps(reqs.make("getPubKey", ctx.rng)[0]).encode())
+                    world.reset_counters()
+                    world.faults = {}
     # uiHeartbeat histories on one long-lived manager: heartbeats cut short, retried while the device still sits in the
     # heartbeat app, power cycles and repairs in between - every heartbeat that *starts in the signer on a healthy
     # device* is judged like a first one (back in the signer with the device's data, or a device error)
